@@ -311,11 +311,13 @@ Definition develop_lattice (st : state) (key : Z) (univs : list Z) : res state :
 
 Record vol := mkVol { v_fictive : bool; v_origin : list (Z * Z) }.
 
-(* name of the composition a cell refers to *)
-Definition material_name (c : cell) : string :=
+(* name of the composition a cell refers to: str(int(materialID)), '_' and the
+   density unless void — the same spelling of the material number as in
+   constructCompositionT4 ([z] is int(materialID)) *)
+Definition material_name (z : Z) (c : cell) : string :=
   match c_dens c with
-  | None => c_mat c
-  | Some d => c_mat c ++ "_" ++ d
+  | None => dec_Z z
+  | Some d => dec_Z z ++ "_" ++ d
   end.
 
 (* dic_partialGeomComp[name].append(key), groups in order of first appearance *)
@@ -336,7 +338,10 @@ Fixpoint geomcomp_from (vols : dict vol) (cells : dict cell) (g : list (string *
       if v_fictive v then geomcomp_from r cells g
       else match lookup (vol_source k v) cells with
            | None => Err EKey
-           | Some c => geomcomp_from r cells (group_add (material_name c) k g)
+           | Some c => match int_of_token (c_mat c) with
+                       | None => Err EValue
+                       | Some z => geomcomp_from r cells (group_add (material_name z c) k g)
+                       end
            end
   end.
 
